@@ -133,21 +133,39 @@ func genMutationAlt(r *RNG) (string, []string, string) {
 	}
 	all := strings.Join(body, " ")
 	allRev := strings.Join(rev, " ")
+	var fragsRev []string
+	// sometimes the operation's own selection set consists of one fragment that
+	// contributes every top-level field
+	switch r.Intn(12) {
+	case 0:
+		all, allRev = "... { "+all+" }", "... { "+allRev+" }"
+	case 1:
+		all, allRev = "... on Mutation { "+all+" }", "... on Mutation { "+allRev+" }"
+	case 2:
+		all, allRev = "... @include(if:$yes) { "+all+" }", "... @include(if:$yes) { "+allRev+" }"
+	case 3:
+		fragsRev = append(append([]string(nil), frags...), "fragment Whole on Mutation { "+allRev+" }")
+		frags = append(frags, "fragment Whole on Mutation { "+all+" }")
+		all, allRev = "...Whole", "...Whole"
+	}
+	if fragsRev == nil {
+		fragsRev = frags
+	}
 	var decl []string
-	if strings.Contains(all, "$yes") {
+	if strings.Contains(all+strings.Join(frags, " "), "$yes") {
 		decl = append(decl, "$yes:Boolean=true")
 	}
-	if strings.Contains(all, "$no") {
+	if strings.Contains(all+strings.Join(frags, " "), "$no") {
 		decl = append(decl, "$no:Boolean=false")
 	}
 	head := "mutation"
 	if len(decl) > 0 {
 		head += "(" + strings.Join(decl, ",") + ")"
 	}
-	return head + " { " + all + " } " + strings.Join(frags, " "), keys, head + " { " + allRev + " } " + strings.Join(frags, " ")
+	return head + " { " + all + " } " + strings.Join(frags, " "), keys, head + " { " + allRev + " } " + strings.Join(fragsRev, " ")
 }
 
-var c13Faults = []string{FThunk, FThunk, FThunk, FThunkErr, FThunkNil, FThunkPanic, FErr, FNil, FElemThunk, FElemThunk}
+var c13Faults = []string{FThunk, FThunk, FThunk, FThunk2, FThunk2, FThunkErr, FThunkNil, FThunkPanic, FErr, FNil, FElemThunk, FElemThunk}
 
 func (p c13) Gen(seed uint64, enum int, tier string) json.RawMessage {
 	r := NewRNG(seed)
@@ -200,6 +218,10 @@ func (p c13) Gen(seed uint64, enum int, tier string) json.RawMessage {
 		for _, p := range paths {
 			if !strings.Contains(p, ".") && r.Chance(70) {
 				s.Faults["R@"+p] = FThunk
+				if r.Chance(30) {
+					// the top-level field's own value is a deferred value that yields another one
+					s.Faults["R@"+p] = FThunk2
+				}
 			}
 		}
 	default:
